@@ -113,15 +113,47 @@ pub unsafe fn ring_munmap(_addr: *mut c_void, _len: usize) {
 pub unsafe fn ring_close(fd: i32) {
     let ring = KERNEL.with(|k| k.try_borrow_mut().ok().and_then(|mut k| k.rings.remove(&fd)));
     if let Some(r) = ring {
-        klog(|| format!("kernel: ring {fd} closed with {} operations in flight", r.ops.len()));
+        klog(|| format!("kernel: ring {fd} closed with {} operations in flight, {} completions unreaped in the queue, {} on the overflow list", r.ops.len(), r.cq_ready(), r.overflow.len()));
+        if !r.overflow.is_empty() {
+            probe("ring-closed-with-overflowed-completions");
+        }
+        if r.cq_ready() > 0 {
+            probe("ring-closed-with-unreaped-completions");
+        }
         if !r.ops.is_empty() {
             probe("ring-closed-with-inflight-ops");
         }
         for o in r.ops.iter() {
             simcore::quarantine::watch_remove(o.seq);
+            if o.opcode == ops::OP_CLOSE {
+                // a close request still queued when the ring goes away is either run or cancelled by the kernel
+                let lost = with_kernel(|k| k.cfg.lazy) > 0 && flip("k.exit.close-cancelled", 16);
+                if lost {
+                    fault("close-request-cancelled-at-ring-exit");
+                    with_kernel(|k| k.lost_closes.push(o.fd));
+                    klog(|| format!("kernel: Close #{} of fd {} is cancelled with the ring", o.seq, o.fd));
+                } else {
+                    klog(|| format!("kernel: Close #{} of fd {} still runs while the ring goes away", o.seq, o.fd));
+                    unsafe { libc::close(o.fd) };
+                }
+            }
         }
         for (g, _) in r.pbufs.iter() {
             simcore::quarantine::watch_remove(PBUF_TAG + *g as u64);
+        }
+        // requests written to the submission queue but never submitted die with the ring
+        let mut r = r;
+        let mut unsubmitted = 0;
+        while let Some(sqe) = r.take_sqe() {
+            unsubmitted += 1;
+            let op = ops::decode(&sqe, 0);
+            if op.opcode == ops::OP_CLOSE {
+                with_kernel(|k| k.lost_closes.push(op.fd));
+                klog(|| format!("kernel: a Close of fd {} was still unsubmitted in the submission queue", op.fd));
+            }
+        }
+        if unsubmitted > 0 {
+            probe("ring-closed-with-unsubmitted-sqes");
         }
         drop(r);
     }
